@@ -221,7 +221,9 @@ func zzFloat(fr *frame, args []value) value {
 		}
 	}
 	m.bounds[tag] = "one of " + strings.Join(names, ",")
-	return mkReal(t, types.Float64)
+	r := mkReal(t, types.Float64)
+	r.tbl = newChoice(v, append([]value{}, vals...))
+	return r
 }
 
 func zzLen(fr *frame, args []value) value {
